@@ -156,7 +156,7 @@ def _lib_name(prog: Program, fn: Func, call: ast.Call) -> Optional[str]:
     return d
 
 
-LATER_RULES = ' Later rules: R11.3 also demands that restored spellings are drawn from a collection validated against the value; (R11.4) the minimum indentation over all lines is only used in a dedent/indent inverse pair; R11.1 (iv) a token-blind stage is accepted when its result is used only under a positive comparison of the syntax trees of input and result; (R11.5) the wrapped code of a statement is used only under that comparison. (R11.6) where the lines of replacement code are re-indented, trailing blanks are stripped only from lines that do not end inside a string literal. (R11.7) the tree comparison parses the two texts as they are (at most behind a prefix line): no dedent / strip / expandtabs / substitution before parsing.'
+LATER_RULES = ' Later rules: R11.3 also demands that restored spellings are drawn from a collection validated against the value; (R11.4) the minimum indentation over all lines is only used in a dedent/indent inverse pair; R11.1 (iv) a token-blind stage is accepted when its result is used only under a positive comparison of the syntax trees of input and result; (R11.5) the wrapped code of a statement is used only under that comparison. (R11.6) where the lines of replacement code are re-indented, trailing blanks are stripped only from lines that do not end inside a string literal. (R11.8) = C13 R13.2, the line table is split where the tokenizer ends lines; (R11.7) the tree comparison parses the two texts as they are (at most behind a prefix line): no dedent / strip / expandtabs / substitution before parsing.'
 
 
 def check(prog: Program, tier: str) -> Result:
@@ -276,7 +276,13 @@ def check(prog: Program, tier: str) -> Result:
     _r11_5(prog, res)
     _r11_6(prog, res)
     _r11_7(prog, res)
+    # the positions every text-level stage works with come out of the line table: a table split at other places than the tokenizer's
+    # line ends (str.splitlines: form feed, \x1c-\x1e, \x85, U+2028) moves the range of `the gap before an import` into a literal
+    from . import c13 as _c13
+    res.adopt(_c13.check(prog, tier), {"R13.2"}, "R11.8",
+              "import spacing and the other text-level stages splice at positions computed from the line table; with lines that are not the tokenizer's lines the splice lands inside a multi-line literal, and only validity - not the tree - is checked there")
     res.floors["R11.6"] = 1
+    res.floors["R11.8"] = 1
     res.floors["R11.7"] = 1
     res.floors["R11.3"] = 1
     res.floors["R11.4"] = 2
